@@ -11,6 +11,7 @@ import (
 	bloomfilter "github.com/KevoDB/kevo/pkg/bloom_filter"
 	"github.com/KevoDB/kevo/pkg/sstable/block"
 	"github.com/KevoDB/kevo/pkg/sstable/footer"
+	"github.com/KevoDB/kevo/pkg/verifhook"
 )
 
 // FileManager handles file operations for SSTable writing
@@ -517,6 +518,8 @@ func (w *Writer) Finish() (err error) {
 	if err := w.fileManager.Sync(); err != nil {
 		return fmt.Errorf("failed to sync file: %w", err)
 	}
+
+	verifhook.Point("sst.finish.before_rename")
 
 	// Finalize file (close and rename)
 	return w.fileManager.FinalizeFile()
